@@ -276,6 +276,22 @@ def c02_forms(extended):
     add("f", "store volatile<bool> = (tainted<unsigned> == tainted<unsigned,other>)", "e.V<bool>() = (e.T_<unsigned int>() == e.NT<unsigned int>()); sink(e, e.V<bool>());")
     add("f", "store volatile<bool> = (tainted<int> < tainted<int,other>)", "e.V<bool>() = (e.T_<int>() < e.NT<int>()); sink(e, e.V<bool>());")
     add("f", "compare tainted<pint> == tainted<pint,other>", FP + " auto p = Wd::tptr<int>(e.sb, 512); e.V<bool>() = (p != fp); sink(e, e.V<bool>());")
+    # round 17: the same foreign operands as CONST-qualified named objects (const locals, const& parameters, std::as_const): a
+    # trait that recognises wrappers of another sandbox type must not be defeated by a cv-qualifier on the operand
+    add("f", "memcmp(dest, const tainted<char*,other> source)", "const auto fsrc = e.nsb.UNSAFE_accept_pointer(reinterpret_cast<char*>(e.raw())); auto d = Wd::tptr<char>(e.sb, 512); auto h = rlbox::memcmp(e.sb, d, fsrc, 4u); (void)h; sink(e, d);")
+    add("f", "memcmp(const tainted<char*,other> dest, source)", "const auto fdst = e.nsb.UNSAFE_accept_pointer(reinterpret_cast<char*>(e.raw())); auto d = Wd::tptr<char>(e.sb, 512); auto h = rlbox::memcmp(e.sb, fdst, d, 4u); (void)h; sink(e, d);")
+    add("f", "memcmp(dest, source, const tainted<unsigned,other> count)", "const auto fn = e.NT<unsigned int>(); auto d = Wd::tptr<char>(e.sb, 512); auto d2 = Wd::tptr<char>(e.sb, 640); auto h = rlbox::memcmp(e.sb, d, d2, fn); (void)h; sink(e, d);")
+    add("f", "memcpy(dest, const tainted<char*,other> source)", "const auto fsrc = e.nsb.UNSAFE_accept_pointer(reinterpret_cast<char*>(e.raw())); auto d = Wd::tptr<char>(e.sb, 512); rlbox::memcpy(e.sb, d, fsrc, 4u); sink(e, d);")
+    add("f", "memcpy(dest, source, const tainted<unsigned,other> count)", "const auto fn = e.NT<unsigned int>(); auto d = Wd::tptr<char>(e.sb, 512); auto d2 = Wd::tptr<char>(e.sb, 640); rlbox::memcpy(e.sb, d, d2, fn); sink(e, d);")
+    add("f", "memset(dest, const tainted<int,other>, n)", "const auto fv = e.NT<int>(); auto d = Wd::tptr<char>(e.sb, 512); rlbox::memset(e.sb, d, fv, 4u); sink(e, d);")
+    add("f", "memset(dest, 0, const tainted<unsigned,other>)", "const auto fn = e.NT<unsigned int>(); auto d = Wd::tptr<char>(e.sb, 512); rlbox::memset(e.sb, d, 0, fn); sink(e, d);")
+    add("f", "compound volatile<int> += const tainted<int,other>", "const auto fv = e.NT<int>(); e.V<int>() += fv; sink(e, e.V<int>());")
+    add("f", "tainted<int> + const tainted<int,other>", "const auto fv = e.NT<int>(); sink(e, e.T_<int>() + fv);")
+    add("f", "const tainted<int,other> + tainted<int> (foreign operand on the left)", "const auto fv = e.NT<int>(); sink(e, fv + e.T_<int>());")
+    add("f", "index tainted<pint>[const tainted<int,other>]", "const auto fv = e.NT<int>(); auto p = Wd::tptr<int>(e.sb, 512); sink(e, p[fv]);")
+    add("f", "store volatile<bool> = (tainted<int> < const tainted<int,other>)", "const auto fv = e.NT<int>(); e.V<bool>() = (e.T_<int>() < fv); sink(e, e.V<bool>());")
+    add("f", "store volatile<int> = const tainted<int,other>", "const auto fv = e.NT<int>(); e.V<int>() = fv; sink(e, e.V<int>());")
+    add("f", "invoke(echo_int, const tainted<int,other>)", "const auto fv = e.NT<int>(); sink(e, Wd::invoke<int(int)>(e.sb, \"echo_int\", fv));")
     # round 12: the "address of a sandbox function" API asked for something that is not a function -- the result would be a
     # tainted DATA pointer that no range check has ever seen
     add("f", "function-address API with an object type: INTERNAL_get_sandbox_function_name<int>(exported symbol)", "auto t = e.sb.INTERNAL_get_sandbox_function_name<int>(\"echo_int\"); sink(e, t);")
